@@ -169,6 +169,21 @@ def handle (args : List String) (impl : List String) : String :=
     match parseQs? w, target.toInt? with
     | some w, some t => if absQ (w.sum - t) ≤ pow2 (-24) * (1 + vmaxAbs w * w.length) then "ok" else s!"bad relation=unbiased sum={fmtRat w.sum}"
     | _, _ => "bad-op"
+  -- two code paths of the library on the same input (C04, C05, C10): answers must agree
+  | ["pair", what, e1, e2, s1, s2, scale] =>
+    match parseQs? e1, parseQs? e2, parseQs? s1, parseQs? s2, parseQ? scale with
+    | some e1, some e2, some s1, some s2, some sc0 =>
+      let sc := maxQ sc0 (maxQ (vmaxAbs e1) (vmaxAbs e2))
+      let sv := maxQ (sc0 * sc0) (maxQ (vmaxAbs (s1.map fun x => x * x)) (vmaxAbs (s2.map fun x => x * x)))
+      if e1.length != e2.length then s!"bad pair={what} answers of different sizes ({e1.length} vs {e2.length})"
+      else if !(vclose (pow2 (-20) * sc) e1 e2) then
+        let i := ((List.range e1.length).find? fun i => absQ (e1.getD i 0 - e2.getD i 0) > pow2 (-20) * sc).getD 0
+        s!"bad pair={what} values differ at {i}: {fmtRat (e1.getD i 0)} vs {fmtRat (e2.getD i 0)}"
+      else if !(vclose (pow2 (-20) * sv) (s1.map fun x => x * x) (s2.map fun x => x * x)) then
+        let i := ((List.range s1.length).find? fun i => absQ (s1.getD i 0 * s1.getD i 0 - s2.getD i 0 * s2.getD i 0) > pow2 (-20) * sv).getD 0
+        s!"bad pair={what} standard deviations differ at {i}: {fmtRat (s1.getD i 0)} vs {fmtRat (s2.getD i 0)}"
+      else "ok"
+    | _, _, _, _, _ => "bad-op"
   | ["rel", "same", e1, e2, s1, s2, scale] =>
     match parseQs? e1, parseQs? e2, parseQs? s1, parseQs? s2, parseQ? scale with
     | some e1, some e2, some s1, some s2, some sc0 =>
